@@ -45,6 +45,48 @@ fn check_greeting(case: &GreetingCase) -> CaseResult {
     r
 }
 
+#[derive(Debug, Clone, Serialize, Deserialize)]
+pub struct SlowCase {
+    pub version: String,
+    /// cut offsets inside the greeting line
+    pub cuts: Vec<usize>,
+    pub pause_ms: u64,
+    /// index of the first read that is slow (the one after it is slow too when the pause is short)
+    pub at: usize,
+    pub is_async: bool,
+}
+
+fn check_slow(case: &SlowCase) -> CaseResult {
+    let mut r = CaseResult::new();
+    r.nontrivial();
+    let greeting = format!("OK MPD {}\n", case.version).into_bytes();
+    let mut cuts: Vec<usize> = case.cuts.iter().map(|c| 1 + c % (greeting.len() - 1)).collect();
+    cuts.sort_unstable();
+    cuts.dedup();
+    // the bytes play the role of greeting + first response; cut offsets count from the first byte,
+    // one cut sits exactly behind the greeting (a server says nothing more before it was asked)
+    cuts.push(greeting.len());
+    let mut all = greeting.clone();
+    all.extend_from_slice(b"a: b\nOK\n");
+    let sleeps: Vec<(usize, u64)> = if case.pause_ms >= 1000 { vec![(case.at + 1, case.pause_ms)] } else { vec![(case.at + 1, case.pause_ms), (case.at + 2, case.pause_ms)] };
+    r.class_if(case.pause_ms >= 1000, "pause_of_seconds");
+    r.class_if(case.pause_ms >= 30_000, "pause_of_30s_and_more");
+    let flavour = if case.is_async { Flavour::Async } else { Flavour::Blocking };
+    let obs = crate::streamlab::run_slowly(flavour, b"", &all, &Seg::Cuts(cuts.clone()), 0, None, &sleeps);
+    if obs.version.as_deref() != Some(case.version.as_str()) || obs.responses.len() != 1 || obs.terminal != crate::streamlab::Terminal::CleanEof {
+        r.fail(format!(
+            "valid greeting {:?} delivered in segments ending at {cuts:?} with {} ms of real time before read(s) {:?}, {flavour:?}: version {:?}, {} response(s), terminal {:?}",
+            case.version,
+            case.pause_ms,
+            sleeps.iter().map(|s| s.0).collect::<Vec<_>>(),
+            obs.version,
+            obs.responses.len(),
+            obs.terminal
+        ));
+    }
+    r
+}
+
 fn greeting_bytes(huge: bool) -> impl Strategy<Value = B> {
     let top = if huge { 22u32 } else { 14 };
     let version = prop_oneof![
@@ -160,12 +202,17 @@ pub struct PwCase {
     pub use_opt_api: bool,
     pub seg: SegPattern,
     pub sched_seed: u64,
+    /// complete lines that arrive in the same read as the greeting, before the client has sent anything
+    #[serde(default)]
+    pub greeting_tail: Option<crate::core::B>,
 }
 
 fn check_password(case: &PwCase) -> CaseResult {
     let mut r = CaseResult::new();
     let mut script = Script::new(vec![Step::Advance(150)]);
     script.seg = case.seg.clone();
+    script.greeting_tail = case.greeting_tail.clone();
+    r.class_if(case.greeting_tail.is_some(), "unasked_lines_with_the_greeting");
     script.sched_seed = case.sched_seed;
     script.broken_pipe = false;
     let connect = match (&case.password, case.use_opt_api) {
@@ -329,12 +376,33 @@ pub fn property(_tier: Tier) -> Property {
                 check: Box::new(check_client_greeting),
             }),
             Box::new(RandomPart {
+                name: "slow_greeting",
+                rule: "proptest: a valid greeting that arrives in 3-6 segments while REAL time passes before two of the reads (quick: 30-150 ms each; thorough: one of 1.2 / 5.2 / 10.5 / 31 / 61 s once), blocking and async connect, then one small response: connecting succeeds with the version verbatim however long the peer takes (the protocol layer has no business with the wall clock), and the response after it is delivered. non-trivial = every case",
+                cases: (32, 64),
+                strategy: Box::new(|t: Tier| {
+                    let pause = match t {
+                        Tier::Quick => prop_oneof![30..150u64].boxed(),
+                        Tier::Thorough => prop_oneof![3 => 30..150u64, 1 => Just(1_200u64), 1 => Just(5_200), 1 => Just(10_500), 1 => Just(31_000), 1 => Just(61_000)].boxed(),
+                    };
+                    ("[0-9]{1,2}\\.[0-9]{1,2}\\.[0-9]{1,3}[ -~]{0,40}", prop::collection::vec(1..60usize, 2..=5), pause, 0..3usize, any::<bool>())
+                        .prop_map(|(version, cuts, pause_ms, at, is_async)| SlowCase { version, cuts, pause_ms, at, is_async })
+                        .boxed()
+                }),
+                check: Box::new(check_slow),
+            }),
+            Box::new(RandomPart {
                 name: "password",
-                rule: "proptest over the simulator: Client::connect / connect_with_password / connect_with_password_opt with printable and multi-byte passwords; server verdict OK | OK with fields | ACK with any code | close | garbage, each optionally cut after 0-49 bytes followed by a close; any segmentation. Write log: first line `password <pw>` (or idle without password), idle only after the verdict was read completely and only if it was OK, ACK => IncorrectPassword and nothing further written, cut/close/garbage => ProtocolError and nothing further written. non-trivial = non-OK verdict or a cut",
+                rule: "proptest over the simulator: Client::connect / connect_with_password / connect_with_password_opt with printable and multi-byte passwords; server verdict OK | OK with fields | ACK with any code | close | garbage, each optionally cut after 0-49 bytes followed by a close; any segmentation; in 1 case of 8 the peer sends complete unasked lines (OK, an ACK, a field) in the same read as its greeting, which must not be taken for the verdict. Write log: first line `password <pw>` (or idle without password), idle only after the verdict was read completely and only if it was OK, ACK => IncorrectPassword and nothing further written, cut/close/garbage => ProtocolError and nothing further written. non-trivial = non-OK verdict or a cut",
                 cases: (10_000, 3_000_000),
                 strategy: Box::new(|_t| {
-                    (prop::option::weighted(0.85, password()), any::<bool>(), crate::props::simgen::seg_pattern(), any::<u64>())
-                        .prop_map(|(password, use_opt_api, seg, sched_seed)| PwCase { password, use_opt_api, seg, sched_seed })
+                    (
+                        prop::option::weighted(0.85, password()),
+                        any::<bool>(),
+                        crate::props::simgen::seg_pattern(),
+                        any::<u64>(),
+                        prop::option::weighted(0.12, prop_oneof![Just("OK\n"), Just("OK\nOK\n"), Just("motd: hello\nOK\n"), Just("ACK [4@0] {} not yet\n"), Just("list_OK\nOK\n")]),
+                    )
+                        .prop_map(|(password, use_opt_api, seg, sched_seed, tail)| PwCase { password, use_opt_api, seg, sched_seed, greeting_tail: tail.map(crate::core::B::from) })
                         .boxed()
                 }),
                 check: Box::new(check_password),
